@@ -9,6 +9,9 @@ CLAIMED = {
  "C19": ("Lean 4 theorems over option tables regenerated from parser.py/__main__.py/api.py on every run + argparse/CLI correspondence",
          "Proved for every --enable list of any length: expansion equals the documented meaning (C19_enable), rejection characterised (C19_reject), keyword wiring is the identity and covers the nine traits once (C19_wiring, table theorem by decide over generated tables), API defaults = default selection. Tie: argparse actions in-process on 500 option vectors, `python -m ngo` in 48 (quick)/600 (thorough) subprocesses: recorded optimize kwargs vs model, stdout vs optimize().",
          "argparse itself, int()'s non-ASCII grammar and process I/O are observed, not modelled.", "§9 C19"),
+ "C07": ("Lean 4 theorems over all op sequences of the UniqueNames/UniqueVariables state machines + op-sequence correspondence + pass-level observation",
+         "Proved for every vocabulary and every request sequence: the naming loops terminate (pigeonhole + injectivity of base++str(n)), returned predicates/variables are pairwise distinct and disjoint from source and declarations (C07_fresh_pred, C07_fresh_var, C07_names_total, C07_vars_total). Tie: identical op sequences on globals.py and the model (700 quick / 30k thorough). Pass-level clauses (inputs get no new rules, invented heads are new, non-rule statements verbatim, layout metamorphosis) are observed on the real optimize; known findings D10, D15, D20, D21.",
+         "Names produced outside UniqueNames (__min_0_<line>, template variables X/P/N..) are not covered by the theorems: D15 and D7 are findings; `single purpose' is semantic and decided by the equivalence checks.", "§9 C07"),
 }
 PENDING = {}
 props = [json.loads(l) for l in open(os.path.join(VERIF, "properties.jsonl"))]
@@ -36,7 +39,7 @@ m = {
  "setup_cmd": "cd lean && /venv/bin/python ../harness/extract_tables.py && lake build",
  "hooks": {"guard": "NGO_VERIF", "enable": "export NGO_VERIF=1 (set by ./check); ngo is installed editable, so checks see /repo/src directly",
            "baseline_off_cmd": "cd /repo && env -u NGO_VERIF /venv/bin/python -m pytest -ra -q -p no:cacheprovider --timeout=900 --continue-on-collection-errors",
-           "source_commits": [], "add_only": True},
+           "source_commits": ["aba9689"], "add_only": True},
  "engines": [{"name": "lean4-ngoverif", "path": "lean/", "serves_properties": sorted(CLAIMED),
               "kind_free_text": "Lean 4.33 library NgoVerif (models, specifications, theorems; core Lean only so far) + compiled line-protocol driver; Python harness under harness/ drives the real ngo in-process and diffs"}],
  "checks": checks,
